@@ -21,7 +21,7 @@ import (
 func init() {
 	Registry["C16"] = &Check{
 		Scenarios: c16Scenarios,
-		Rule: "complete grid: hop-by-hop and end-to-end ids from {0,1,2^31,2^32-1}^2 x all 256 command flag bytes x every (application, command) of the embedded dictionaries x result code {0 (none asked), 2001, 5012, 2^32-1} through Message.Answer; the state machine's success CEA, each failure CEA (5010, 5017, 5012) and DWA for the same id grid over an in-memory transport; the same requests arriving on SCTP streams {0,1,5,15} of the in-memory multistream backend (and on a stream-less transport), answered by a handler through Answer().WriteTo and by the state machine: the backend must record the answer on the request's stream, also when the answer to a request is written later, while a request from another stream is being handled (all 16 stream pairs), also when the first 1 or 2 write attempts of that answer fail with a temporary error and are retried (WriteToWithRetry); and two application goroutines answering requests of different streams concurrently (every schedule up to preemption bound 2, thorough 3), on an association attached with NewConn and on one accepted by a Server with ReadTimeout and WriteTimeout set.",
+		Rule: "complete grid: hop-by-hop and end-to-end ids from {0,1,2^31,2^32-1}^2 x all 256 command flag bytes x every (application, command) of the embedded dictionaries x result code {0 (none asked), 2001, 5012, 2^32-1} through Message.Answer; a second CER on a connection whose handshake has completed (if it is answered, the answer must mirror it); the state machine's success CEA, each failure CEA (5010, 5017, 5012) and DWA for the same id grid over an in-memory transport; the same requests arriving on SCTP streams {0,1,5,15} of the in-memory multistream backend (and on a stream-less transport), answered by a handler through Answer().WriteTo and by the state machine: the backend must record the answer on the request's stream, also when the answer to a request is written later, while a request from another stream is being handled (all 16 stream pairs), also when the first 1 or 2 write attempts of that answer fail with a temporary error and are retried (WriteToWithRetry); and two application goroutines answering requests of different streams concurrently (every schedule up to preemption bound 2, thorough 3), on an association attached with NewConn and on one accepted by a Server with ReadTimeout and WriteTimeout set.",
 		Assume: []string{"single default schedule per exchange", "in-memory SCTP backend (hook diam/sctp_verif.go)"},
 		QuickBudget: 120, ThoroughBudget: 900,
 	}
@@ -39,6 +39,7 @@ func c16Scenarios(tier string) []*Scenario {
 		kind := kind
 		out = append(out, &Scenario{Name: "state-machine/" + kind, Seq: func(r *SeqResult) { c16SM(r, kind) }})
 	}
+	out = append(out, &Scenario{Name: "state-machine/second-cer", Seq: c16SecondCER})
 	out = append(out, &Scenario{Name: "streams/handler-answer", Seq: c16Streams})
 	out = append(out, &Scenario{Name: "streams/deferred-answer", Seq: c16Deferred})
 	cb := 2
@@ -466,4 +467,62 @@ func c16ConcurrentOpt(s1, s2 uint16, retry, withTimeouts bool, bound int) *Scena
 		name += "/server-with-read-and-write-timeouts"
 	}
 	return &Scenario{Name: name, Body: body, Check: check, Outcome: outcome, Bound: bound, Horizon: 5 * time.Second}
+}
+
+// c16SecondCER: a second CER on a connection whose handshake has completed. The statement does not
+// say whether the state machine answers it; IF it does, that answer must mirror THIS request
+// (command, application id, identifiers, P bit, stream) like every other answer it builds.
+func c16SecondCER(r *SeqResult) {
+	for _, hbh := range []uint32{0, 0x80000000} {
+		for _, flags := range []uint8{0x80, 0xC0, 0x90} {
+			for _, app := range []uint32{0, 4} {
+				for _, stream := range []uint16{2, 5} {
+					hbh, flags, app, stream := hbh, flags, app, stream
+					var be *vnet.SCTP
+					s := vs.Run(nil, false, 5*time.Second, false, func() {
+						be = vnet.NewSCTP("S")
+						mach := sm.New(c16Settings())
+						msc := diam.NewSCTPConnBackend(be)
+						if _, err := diam.NewConn(msc, "peer", mach, dict.Default); err != nil {
+							return
+						}
+						be.Deliver(2, c16Request("cer-ok", 7, 8, 0x80))
+						vs.BlockObj("wait-first-cea", be, func() bool { return len(be.Writes) >= 1 || be.Closed })
+						second := c16Request("cer-ok", hbh, 9, flags)
+						second[8], second[9], second[10], second[11] = byte(app>>24), byte(app>>16), byte(app>>8), byte(app)
+						be.Deliver(stream, second)
+						be.PeerEOF()
+					})
+					s.Teardown()
+					r.Cases++
+					r.Distinct++
+					if r.Sample == "" {
+						r.Sample = fmt.Sprintf("second CER (hbh %#x, flags %#x, header application %d, stream %d) after a completed handshake -> %d answers written in total", hbh, flags, app, stream, len(be.Writes))
+					}
+					if r.Violation != "" || len(be.Writes) < 2 {
+						continue
+					}
+					w := be.Writes[1]
+					h, _ := refcodec.DecodeHeader(w.Data)
+					v := ""
+					switch {
+					case h.Code != 257 || h.Flags&0x80 != 0:
+						v = fmt.Sprintf("answer has command %d flags %#x", h.Code, h.Flags)
+					case h.App != app:
+						v = fmt.Sprintf("answer has application id %d, the request has %d", h.App, app)
+					case h.HbH != hbh || h.E2E != 9:
+						v = fmt.Sprintf("answer ids %#x/%#x, request ids %#x/0x9", h.HbH, h.E2E, hbh)
+					case h.Flags&0x40 != flags&0x40:
+						v = fmt.Sprintf("proxiable bit changed: answer flags %#x, request flags %#x", h.Flags, flags)
+					case w.Stream != stream:
+						v = fmt.Sprintf("the request arrived on stream %d, the answer was written to stream %d", stream, w.Stream)
+					}
+					if v != "" {
+						r.Violation = fmt.Sprintf("answer to a second CER (hop-by-hop %#x, flags %#x, header application %d, stream %d) on a connection whose handshake had completed on stream 2: %s", hbh, flags, app, stream, v)
+						r.Case = map[string]interface{}{"hbh": hbh, "flags": flags, "app": app, "stream": stream}
+					}
+				}
+			}
+		}
+	}
 }
